@@ -1,0 +1,49 @@
+//! Verification hooks. Compiled only with the cargo feature `verif-hooks`.
+//! Purely additive: read-only views of built-in tables, a scheduling point
+//! callback placed in front of the grid cache lock, and an entry point to
+//! the per-application stack machine used by pipelines.
+
+use crate::authoring::*;
+use std::sync::RwLock;
+
+/// Names and gamuts of all built-in operators, in table order
+pub fn builtin_operators() -> Vec<(&'static str, Vec<OpParameter>)> {
+    crate::inner_op::verif::builtin_operators()
+}
+
+/// The raw built-in ellipsoid table: (name, a, ay, rf, description)
+pub fn ellipsoid_table() -> Vec<[&'static str; 5]> {
+    crate::ellipsoid::verif_ellipsoid_table()
+}
+
+/// The linear and angular unit tables: (name, multiplier)
+#[allow(clippy::type_complexity)]
+pub fn unit_tables() -> (Vec<(&'static str, f64)>, Vec<(&'static str, f64)>) {
+    crate::inner_op::verif::unit_tables()
+}
+
+/// One transition of the pipeline stack machine: execute the `stack`
+/// step given by `definition` in direction `direction` on `stack` and `operands`
+pub fn stack_step(
+    definition: &str,
+    direction: Direction,
+    stack: &mut Vec<Vec<f64>>,
+    operands: &mut dyn CoordinateSet,
+) -> Result<usize, Error> {
+    crate::inner_op::verif::stack_step(definition, direction, stack, operands)
+}
+
+static SCHED_HOOK: RwLock<Option<fn(&'static str)>> = RwLock::new(None);
+
+/// Install (or remove) the callback invoked at scheduling points
+pub fn set_sched_hook(hook: Option<fn(&'static str)>) {
+    *SCHED_HOOK.write().unwrap() = hook;
+}
+
+/// Called immediately before each acquisition of the grid cache lock
+pub(crate) fn sched_point(tag: &'static str) {
+    let hook = *SCHED_HOOK.read().unwrap();
+    if let Some(hook) = hook {
+        hook(tag);
+    }
+}
